@@ -232,6 +232,9 @@ func (s *VSim) handleFetch(b *VSimBroker, connID int64, ctx *VSimReqCtx, r *Fetc
 				}
 			}
 		}
+		if part != nil && code == ErrNoError && act.Kind == VFOk {
+			part.okFetches++
+		}
 		rec.Code, rec.SetBytes, rec.HWM, rec.LSO, rec.Aborted = int16(code), len(set), hwm, lso, aborted
 		s.logEvent("fetch", b.ID, connID, map[string]interface{}{"fetched": rec})
 		var pb []byte
@@ -295,9 +298,26 @@ func (s *VSim) frameLocked(part *vsPartition, from, limit int64, act *VSimFetchA
 	if maxB <= 0 {
 		maxB = 3
 	}
+	// Only a batch (magic 2) or a compressed wrapper can begin before the fetch
+	// offset: uncompressed legacy messages are located individually by a broker.
+	align := act.AlignTo
+	if act.Magic < 2 && act.Codec == 0 && part.log[idx].PID < 0 {
+		align = 0
+	}
+	sameProducer := func(a, b VRec) bool {
+		return a.PID == b.PID && a.Epoch == b.Epoch && a.Transactional == b.Transactional && !a.Control && !b.Control
+	}
+	// In aligned mode the log has a fixed batch layout: a batch starts at every
+	// multiple of AlignTo and wherever the producer changes; the answer begins
+	// with the batch that contains the fetch offset.
+	boundary := func(i int) bool {
+		return i == 0 || i%align == 0 || !sameProducer(part.log[i-1], part.log[i])
+	}
 	start := idx
-	if act.AlignTo > 0 {
-		start = idx - idx%act.AlignTo
+	if align > 0 {
+		for !boundary(start) {
+			start--
+		}
 	}
 	k := 0
 	for b := 0; b < maxB && start < end; b++ {
@@ -305,19 +325,22 @@ func (s *VSim) frameLocked(part *vsPartition, from, limit int64, act *VSimFetchA
 		if len(act.BatchSizes) > 0 {
 			size = act.BatchSizes[k%len(act.BatchSizes)]
 			k++
-		}
-		if act.AlignTo > 0 {
-			size = act.AlignTo - start%act.AlignTo
+		} else if act.AlignTo > 0 {
+			size = act.AlignTo
 		}
 		stop := start + size
+		if align > 0 {
+			stop = start + 1
+			for stop < len(part.log) && !boundary(stop) {
+				stop++
+			}
+		}
 		if stop > end {
 			stop = end
 		}
-		// do not cross a producer / control / transactional boundary
 		r0 := part.log[start]
 		for j := start + 1; j < stop; j++ {
-			rj := part.log[j]
-			if rj.PID != r0.PID || rj.Control != r0.Control || rj.Transactional != r0.Transactional || rj.Epoch != r0.Epoch || r0.Control {
+			if !sameProducer(part.log[j-1], part.log[j]) {
 				stop = j
 				break
 			}
